@@ -411,9 +411,25 @@ def unwraps(rep, prog, rule, only=None, floor=20):
             if nm == "divide_alpha_inplace_typed":
                 sup = any(cc[0] == "call" and cc[1] == "is_supported" and v is True
                           for cc, v in facts)
+                via = None
+                if not sup and not f.d.get("pub"):
+                    # a private helper: the guard may sit at its call sites
+                    sites = prog.callers().get(f.id, [])
+                    if sites:
+                        okc = 0
+                        for c2 in sites:
+                            s2 = Sym(c2.fn)
+                            if any(cc[0] == "call" and cc[1] == "is_supported" and v is True
+                                   for cc, v in s2.facts_at(c2.bb)):
+                                okc += 1
+                        if okc == len(sites):
+                            via = len(sites)
                 if sup:
                     rep.ok(rule, key, c.at, "dominated by is_supported(P::pixel_type()) "
                            "(the impl set equals the supported set: rule alpha-set)")
+                elif via:
+                    rep.ok(rule, key, c.at, "every call site of %s (%d) is dominated by "
+                           "is_supported(P::pixel_type())" % (f.name.rsplit("::", 1)[-1], via))
                 else:
                     rep.bad(rule, "%s|divide-unwrap" % f.name, c.at,
                             "divide_alpha_inplace_typed(..).unwrap() is reachable without "
